@@ -153,6 +153,15 @@ def coq_prove_locked(pid, targets, timeout):
             stmts.append(v[:-2] + "." + m.group(2))
         for m in HYGIENE.finditer(nocom):
             res["errors"].append("hygiene: %s contains '%s'" % (v, m.group(0)))
+        depth = 0   # Variable/Hypothesis/Context outside a Section declare axioms
+        for m in re.finditer(r"^\s*(Section|Module|End|Variable|Variables|Hypothesis|Hypotheses|Context)\b", nocom, re.M):
+            w = m.group(1)
+            if w in ("Section", "Module"):
+                depth += 1
+            elif w == "End":
+                depth -= 1
+            elif depth <= 0:
+                res["errors"].append("hygiene: %s declares '%s' outside a Section" % (v, w))
     res["obligations"] = len(stmts)
     if rc != 0:
         msg = (out + err)
